@@ -39,7 +39,8 @@ ASSUMPTIONS = ["TSDataView::subscribe/unsubscribe are the only ways a target can
 DECIDED = ["a selection operators", "c consumer blend", "d sampled bind", "e cross-boundary clamp (shared C09.b)", "f re-subscription on retarget",
            "g refresh re-applies the reference", "h same-target de-dup and sampling mode", "i role-ops rows and reference dispatch", "j unsubscribe before a target handle is dropped", "k slot-id bounds of the keyed retarget delta", "m lazily cleared masks of the old target consulted for the transition cycle only",
            'o removed-accessors of TSDInputView agree about a retarget (known finding F-C13-3)', 'p modified-slot predicate and export scan agree during a retarget', 'c also: delta_value shortcut only at the link root in the rebind cycle',
-           'q emptiness of a taken reference follows boundness']
+           'q emptiness of a taken reference follows boundness',
+           'r AlternativeKey filled from the whole source identity']
 NOT_DECIDED = ["observed value/delta equals the target's at every tick", "keyed-shape old/new difference", "unselected targets never wake the consumer at run time"]
 
 
